@@ -44,7 +44,8 @@ class C19(ProgramProperty):
         steps = []
         src = None
         if with_conv:
-            known = [rec("known", "http://known.example/"), rec("kx", "http://e.org/x/a_")]
+            known = [rec("known", "http://known.example/", pat=rng.choice([None, "^\\d{7}$"])),
+                     rec("kx", "http://e.org/x/a_", pat=rng.choice([None, None, "^[A-Z]+$", "^\\d{7}$"]))]
             if rng.random() < 0.6:
                 # a URI prefix that runs past the delimiter into the identifier: it recognises only some
                 # of the URIs that share a split prefix
